@@ -441,7 +441,9 @@ def lattice(quick):
         if k not in seen:
             seen.add(k)
             rooms.append(spec)
-    return rooms
+    # the same call after a call that failed half-way on another recording (state left behind by the failed call)
+    hist = [dict(r, prior='failed_call') for r in rooms if r['fam'] != 'unl'][:: 7 if quick else 3][:40 if quick else 400]
+    return rooms + hist
 
 
 def _spec_key(spec):
@@ -483,7 +485,7 @@ def run_room(spec, p, verbose=False):
         return None
     through_filter = spec['fam'] != 'unl'
     vname = _vis_name(spec)
-    cls = '%s:%s' % (vname, 'n2' if spec['n'] == 2 else 'n3plus')
+    cls = '%s:%s%s' % (vname, 'n2' if spec['n'] == 2 else 'n3plus', ':after_failed_call' if spec.get('prior') else '')
     ok_env, min_elev, max_sweep = envelope_report(room, sensors)
     if not ok_env:
         # geometric exclusion rule (stated in ck.rule): the room is not part of the lattice
@@ -553,6 +555,28 @@ def run_room(spec, p, verbose=False):
                             'first measurement, min 2 stations): %s; room %r' % (bad, spec), spec)
                 res['verdict'] = 'match_mismatch: ' + bad
                 return res
+            # ---- (history) an earlier call in the same process that failed half-way -----------------
+            if spec.get('prior') == 'failed_call':
+                # another recording with the same station ids (the poses in reverse order) whose last measurement is
+                # corrupt (NaN sweep angle): whatever that call does - raise, reject - it must leave nothing behind
+                poses_rev = room['poses'][::-1]
+                meas2 = []
+                for j, (ts, s_, k_) in enumerate(room['events']):
+                    pr2 = _project(room['stations'][s_], poses_rev[k_], sensors)[0]
+                    if j == len(room['events']) - 1:
+                        pr2 = [(float('nan'), v_) for (h_, v_) in pr2]
+                    vecs2 = LighthouseBsVectors(LighthouseBsVector(h_, v_) for h_, v_ in pr2)
+                    meas2.append(LhMeasurement(timestamp=ts / 1e6, base_station_id=ids[s_], angles=vecs2))
+                try:
+                    m2 = (LighthouseSampleMatcher.match(meas2, min_nr_of_bs_in_match=2) if through_filter
+                          else LighthouseSampleMatcher.match(meas2))
+                    g2, c2 = LighthouseInitialEstimator.estimate(m2, LhDeck4SensorPositions.positions)
+                    LighthouseGeometrySolver.solve(g2, c2, LhDeck4SensorPositions.positions)
+                    p.add('prior_corrupt_recording_answered', 1)
+                except _RoomTimeout:
+                    raise
+                except Exception:  # noqa
+                    p.add('prior_corrupt_recording_raised', 1)
             # ---- 2. estimate + solve ------------------------------------------------------------
             exc = None
             try:
